@@ -590,7 +590,7 @@ func (fr *frame) havocLoc(st *State, addr string, t types.Type) {
 		return
 	case *types.Array:
 		for i := 0; i < int(u.Len()) && i < 32; i++ {
-			fr.havocLoc(st, fmt.Sprintf("(ea %s %d)", addr, i), u.Elem())
+			fr.havocLoc(st, vc.ea(addr, fmt.Sprint(i)), u.Elem())
 		}
 		return
 	case *types.Map:
@@ -891,6 +891,7 @@ func (fr *frame) appendBuiltin(v ssa.Value, c *ssa.CallCommon, st *State, g stri
 	if old == "" {
 		return
 	}
+	vc.needEAQuant()
 	vc.assume(fmt.Sprintf("(forall ((i Int)) (! (=> (and (<= 0 i) (< i (s_len %s))) (= (select %s (ea (s_arr %s) (+ (s_off %s) i))) (select %s (ea (s_arr %s) (+ (s_off %s) i))))) :pattern ((select %s (ea (s_arr %s) (+ (s_off %s) i))))))",
 		s, nw, r, r, old, s, s, nw, r, r))
 	vc.assume(fmt.Sprintf("(forall ((i Int)) (! (=> (and (<= 0 i) (< i %s)) (= (select %s (ea (s_arr %s) (+ (s_off %s) (s_len %s) i))) (select %s (ea (s_arr %s) (+ (s_off %s) i))))) :pattern ((select %s (ea (s_arr %s) (+ (s_off %s) (s_len %s) i))))))",
